@@ -106,7 +106,7 @@ def worker_main(argv: list[str]) -> int:
 
 def write_replay(prop: str, verif_seed: int, idx: int, plan: dict[str, Any],
                  viol: dict[str, Any], original: dict[str, Any], nexec: int) -> str:
-    d = os.path.join(VERIF, "replays")
+    d = os.environ.get("CIRSIM_REPLAY_DIR") or os.path.join(VERIF, "replays")
     os.makedirs(d, exist_ok=True)
     body = {
         "property": prop,
@@ -146,6 +146,7 @@ class Agg:
         self.known: Counter[str] = Counter()
         self.samples: list[Any] = []
         self.dts: list[float] = []
+        self.worker_failures = 0
         self.lock = threading.Lock()
 
     def add(self, rec: dict[str, Any]) -> None:
@@ -236,11 +237,22 @@ def run_check(prop: str, tier: str, verif_seed: int, *, budget: float | None = N
     for t in threads:
         t.join(timeout=5)
     wall = time.monotonic() - t0
+    # A run that ended in a harness exception, or a worker that was killed (per-run timeout,
+    # address-space limit), gives *no verdict* for those runs; they are counted in the evidence
+    # and printed.  The check as a whole has no verdict (exit 2) when that is more than a
+    # sliver of the batch - a wall-clock kill of the batch never yields 0.
+    agg.worker_failures = worker_fail
     rc = 0
     if agg.violations:
         rc = 1
-    elif worker_fail or agg.harness_errors or agg.runs == 0:
+    elif (agg.runs == 0 or worker_fail > max(1, nw // 8)
+          or len(agg.harness_errors) > max(2, agg.runs // 500)):
         rc = 2
+    if rc == 0 and (worker_fail or agg.harness_errors) and not quiet:
+        print(f"NO-VERDICT-RUNS: harness_errors={len(agg.harness_errors)} "
+              f"worker_failures={worker_fail} (of {agg.runs} runs, {nw} workers)")
+        for i, e in agg.harness_errors[:3]:
+            print(f"  run={i}: {e.splitlines()[0][:200]}")
     if rc == 2 and not quiet:
         for i, e in agg.harness_errors[:5]:
             print(f"HARNESS-ERROR run={i}: {e}", file=sys.stderr)
